@@ -176,6 +176,7 @@ pub fn drive(spec: CheckSpec) -> i32 {
     "reach": reach,
     "counters": other,
     "distinct_sets": sets,
+    "set_samples": agg.sets.iter().map(|(k, v)| (k.clone(), v.iter().take(12).cloned().collect::<Vec<_>>())).collect::<BTreeMap<String, Vec<String>>>(),
     "reach_gaps": gaps,
     "components": {"real": spec.components_real, "stub": spec.components_stub},
     "known_findings_hit": known_hit,
